@@ -169,6 +169,11 @@ func simC13v4(c *sim.Ctx) {
 			if n+dg.ihl*4 > 65535 {
 				n = (65535 - dg.ihl*4) &^ 7
 			}
+			if c.Chance(500) {
+				// as many fragments as a datagram can have: a maximal payload cut
+				// every 8 bytes, the last piece 1-7 bytes long
+				n = 65535 - dg.ihl*4 - c.Draw(8)
+			}
 		}
 		dg.opts = mkOpts(c, dg.ihl)
 		dg.payload = fill(uint64(di)*1315423911+uint64(c.Tape.Used()), n)
